@@ -100,6 +100,7 @@ func distMain(x *X) {
 	x.R.Evals++
 	x.S.Drain()
 	x.R.Nontrivial = co.Created && (co.Err != "" || (co.Res != nil && co.Res.Points() > 0))
+	x.R.Brief = "distributed: " + do.Brief() + " || central: " + co.Brief()
 	if do.ClientPanic != "" || co.ClientPanic != "" {
 		return
 	}
